@@ -57,7 +57,7 @@ type Profile struct {
 	PNamed      float64 // named parameters
 	PDocLines   float64
 	PClone      float64 // an additional clone-style method (same struct type on both sides)
-	NoExecOnly  bool // allow types the exec runtime cannot judge (func/chan are still fine)
+	NoExecOnly  bool    // allow types the exec runtime cannot judge (func/chan are still fine)
 	// Types restricts the alphabet by kind prefix (nil = all).
 	Types []string
 	// ConvErrInNoErr allows error-returning converters in methods without error (C07 static part).
@@ -483,6 +483,18 @@ func (b *Builder) genField(ctx pairCtx, src, dst *SDecl, name, mech string) {
 		}
 		if (dst.Pkg != "" || src.Pkg != "") && t == "LInt" {
 			t, lit = "int", "4242"
+		}
+		if t == "int" && b.chance(0.35) {
+			// a literal whose text also occurs INSIDE the name of its destination field
+			if i := strings.IndexAny(name, "0123456789"); i >= 0 {
+				lit = strings.TrimLeft(strings.Trim(name[i:], "_"), "0")
+				if lit == "" {
+					lit = "4242"
+				}
+			}
+		}
+		if t == "string" && b.chance(0.15) {
+			lit = `"` + name + `"`
 		}
 		dst.Fields = append(dst.Fields, FDecl{Name: name, Type: t})
 		if b.chance(0.4) {
